@@ -386,6 +386,7 @@ pub fn more_scenarios() -> Vec<Sc> {
     writer_vs_stop_sending(&mut v);
     writer_vs_ack(&mut v);
     flow_blocked_burst(&mut v);
+    stream_window_blocked_burst(&mut v);
     accept_and_open(&mut v);
     two_waiters(&mut v);
     v
@@ -952,6 +953,72 @@ fn flow_blocked_burst(v: &mut Vec<Sc>) {
         },
         expect_eq("burst", &["sent4"]),
     ));
+}
+
+fn stream_window_blocked_burst(v: &mut Vec<Sc>) {
+    // The stream-level twin of the scenario above: one write overshoots the peer's *stream*
+    // window, the burst loop sends what the window allows and sleeps on the refused signals;
+    // MAX_STREAM_DATA that makes the buffered tail sendable must wake it. (Two shapes: the
+    // sender is still Ready — nothing sent yet when the write happens — and already Sending.)
+    for (name, first) in [("sender/stream-window-blocked-load-vs-max-stream-data", &b""[..]), ("sender/stream-window-blocked-load-vs-max-stream-data/sending", &b"a"[..])] {
+        let first: &'static [u8] = first;
+        v.push(sc(
+            name,
+            move || {
+                let obs = Arc::new(Obs::default());
+                // the server lets the client send 2 bytes on a client-initiated bidi stream
+                let cfg = cfg_of(roomy(), side(2, 2, 4, 4, 1 << 20));
+                let ep = Arc::new(Ep::new(Role::Client, &cfg, true));
+                let (sid, reader, mut writer) = ep.open_bi_now().expect("open");
+                let mut want = 4usize;
+                if !first.is_empty() {
+                    // put the sender into the Sending state first
+                    assert!(write_now(&mut writer, first), "first write");
+                    let (frames, _) = ep.assemble(1200);
+                    assert!(frames.iter().any(|f| matches!(f, Frame::Stream(..))), "first byte sent");
+                    want = 5 - first.len();
+                }
+                assert!(write_now(&mut writer, b"bcde"), "write beyond the window");
+                let tx = ArcSendWaker::new();
+                ep.wakers.insert(pathway(1), &tx);
+                let ep2 = ep.clone();
+                let o = obs.clone();
+                (
+                    obs,
+                    vec![
+                        ("burst".into(), body(move |c| {
+                            let _keep = (reader, writer);
+                            let mut sent = 0usize;
+                            let mut rounds = 0;
+                            while sent < want && rounds < 8 {
+                                rounds += 1;
+                                c.point("try_load_data_into");
+                                let (frames, refused) = ep.assemble(1200);
+                                for f in &frames {
+                                    if let Frame::Stream(_, d) = f {
+                                        sent += d.len();
+                                    }
+                                }
+                                if sent >= want {
+                                    break;
+                                }
+                                if let Some(signals) = refused {
+                                    let mut f = Box::pin(tx.wait_for(signals));
+                                    c.block_on("wait_for", |cx| f.as_mut().poll(cx));
+                                }
+                            }
+                            o.set("burst", if sent >= want { "all-sent".to_string() } else { format!("sent{sent}of{want}") });
+                        })),
+                        ("peer".into(), body(move |c| {
+                            c.point("MAX_STREAM_DATA(100)");
+                            let _ = ep2.peer_ctl(StreamCtlFrame::MaxStreamData(MaxStreamDataFrame::new(sid, vi(100))));
+                        })),
+                    ],
+                )
+            },
+            expect_eq("burst", &["all-sent"]),
+        ));
+    }
 }
 
 fn accept_and_open(v: &mut Vec<Sc>) {
